@@ -60,6 +60,20 @@ def enumerate_cases(tier):
             yield dict(_base("Trough", 1, cols, vrows), init={"t": "percol-array", "v": flat})
             yield dict(_base("LabwareV", 1, cols, vrows), init={"t": "flat", "v": flat})
             yield dict(_base("LabwareV", 1, cols, vrows), init={"t": "2d", "v": [flat]})
+    # initial volumes given in single precision: the number that is given is the float32 value (which may lie a hair
+    # above a max_volume written with two decimals); the case carries that value exactly
+    for mx in (0.3, 0.1, 0.7, 33.3, 250.7, 100.1, 1e-3, 299.99):
+        v32 = float(np.float32(mx))
+        for b in (_base("Labware", 2, 2), _base("Trough", 1, 2, 3), _base("LabwareV", 1, 2, 3)):
+            b = dict(b, min=0.0, max=mx, init_dtype="float32")
+            nreal = (b["rows"] if b["ctor"] == "Labware" else 1) * b["cols"]
+            flat = [v32] + [float(np.float32(mx / 2))] * (nreal - 1)
+            if b["ctor"] == "Trough":
+                yield dict(b, init={"t": "percol-array", "v": flat})
+            else:
+                yield dict(b, init={"t": "2d", "v": [flat[r * b["cols"] : (r + 1) * b["cols"]] for r in range(nreal // b["cols"])]})
+            if b["ctor"] != "Trough":  # Trough documents int / float / sequence; a numpy float32 scalar is neither
+                yield dict(b, init={"t": "scalar", "v": v32})
     for b in bases:
         yield dict(b)
         size_keys = ["cols"] + (["rows"] if b["ctor"] == "Labware" else ["vrows"])
@@ -328,16 +342,17 @@ def _classify(case):
 def _args(case):
     """(constructor name, positional arguments, keyword arguments) of the specification, as fresh objects."""
     init = case["init"]
+    dt = np.float32 if case.get("init_dtype") == "float32" else float  # float32: the case holds float32-exact values
     if init["t"] == "none":
         iv = None
     elif init["t"] == "scalar":
-        iv = _v(init["v"])
+        iv = _v(init["v"]) if dt is float else np.float32(_v(init["v"]))
     elif init["t"] == "2d":
-        iv = np.array([[_v(x) for x in row] for row in init["v"]], dtype=float)
+        iv = np.array([[_v(x) for x in row] for row in init["v"]], dtype=dt)
     elif init["t"] == "percol-tuple":
         iv = tuple(_v(x) for x in init["v"])
     elif init["t"] == "percol-array":
-        iv = np.array([_v(x) for x in init["v"]], dtype=float)
+        iv = np.array([_v(x) for x in init["v"]], dtype=dt)
     else:
         iv = [_v(x) for x in init["v"]]
     kw = {"min_volume": _v(case["min"]), "max_volume": _v(case["max"])}
@@ -441,6 +456,7 @@ def check_case(case) -> Obs:
             if tuple(lw.shape) != tuple(wells.shape) or lw.n_rows != wells.shape[0] or lw.n_columns != wells.shape[1]:
                 obs.bad("C20/shape-attrs", f"{desc}: shape {lw.shape}, n_rows {lw.n_rows}, n_columns {lw.n_columns} vs wells {wells.shape}")
             ids = set()
+            nviol = len(obs.violations)
             for r in range(wells.shape[0]):
                 for c in range(wells.shape[1]):
                     w = str(wells[r, c])
@@ -452,9 +468,9 @@ def check_case(case) -> Obs:
                     if tuple(lw.indices.get(w, ())) != want:
                         obs.bad("C20/indices", f"{desc}: indices[{w}] = {lw.indices.get(w)} expected {want}")
                         break
-                if obs.violations:
+                if len(obs.violations) > nviol:
                     break
-            if set(lw.indices.keys()) != ids:
+            if len(obs.violations) == nviol and set(lw.indices.keys()) != ids:
                 obs.bad("C20/indices-keys", f"{desc}: indices has {len(lw.indices)} keys, wells has {len(ids)} ids")
         if not np.all(np.isfinite(vols)):
             obs.bad("C20/volumes-not-finite", f"{desc}: volumes contain {vols[~np.isfinite(vols)][:2]}")
